@@ -292,7 +292,8 @@ def parse_minimize_for_optimal(minimize):
     elif minimize == "write":
         return compute_con_cost_write
 
-    minimize_finder = re.compile(r"(flops|size|write|combo|limit)-*(\d*)")
+    # n.b. objectives report their factor as a float, e.g. "combo-256.0"
+    minimize_finder = re.compile(r"(flops|size|write|combo|limit)-*(\d*\.?\d*)")
 
     # parse out a customized value for the combination factor
     match = minimize_finder.fullmatch(minimize)
